@@ -19,7 +19,7 @@ TIMEOUT = {"quick": 900, "thorough": 7000}
 
 
 def cases(tier, seed):
-    n = 192 if tier == "quick" else 16000
+    n = 192 if tier == "quick" else 48000
     return [{"seed": seed, "idx": i} for i in range(n)]
 
 
